@@ -73,7 +73,7 @@ theorem fixNext_fields (maxT : Nat) (o : RepOut) :
 
 /-- `terminator.on_task_report` for plain promotion types -/
 theorem taskReport_plain (g g' : Manager) (tid r : Nat) (v : Rat) (hint : Bool) (cost eps : Rat) (o : RepOut)
-    (hty : g.type.plain) (hrun : ∀ sys ∈ g.systems, RunOK sys)
+    (hty : g.type.pauseResume = true) (hrun : ∀ sys ∈ g.systems, RunOK sys)
     (h : g.taskReport tid r v hint cost eps = .ok (g', o)) :
     g'.type = g.type ∧ g'.maxT = g.maxT ∧ (∀ sys ∈ g'.systems, RunOK sys) ∧
     ((unpromotedSys g'.systems = unpromotedSys g.systems) ∨
@@ -102,9 +102,11 @@ theorem taskReport_plain (g g' : Manager) (tid r : Nat) (v : Rat) (hint : Bool) 
           have hsysok : RunOK sys := hrun sys (List.mem_of_getElem? h2)
           have hrel : ReportRel sys sys' tid o1 := by
             unfold Manager.sysReport at hsr
-            rcases hty with ht | ht
+            rcases pauseResume_cases hty with ht | ht | ht | ht
             · simp only [ht] at hsr; exact promoReport_rel sys sys' g.mode tid r v 0 o1 hsysok hsr
             · simp only [ht] at hsr; exact pashaReport_rel sys sys' g.mode tid r v eps o1 hsysok hsr
+            · simp only [ht] at hsr; exact promoReport_rel sys sys' g.mode tid r v cost o1 hsysok hsr
+            · simp only [ht] at hsr; exact promoReport_rel sys sys' g.mode tid r v 0 o1 hsysok hsr
           obtain ⟨f1, f2, f3⟩ := fixNext_fields g.maxT o1
           refine ⟨?_, ?_⟩
           · intro y hy
@@ -150,7 +152,7 @@ theorem onResult_KInv (s s' : Sched) (tid r : Nat) (v : Rat) (hint : Bool) (cost
       | ok res =>
         obtain ⟨g, o⟩ := res
         simp only [htr] at h
-        obtain ⟨t1, t2, t3, t4⟩ := taskReport_plain s.mgr g tid r v hint _ eps o hinv.plain hinv.runok htr
+        obtain ⟨t1, t2, t3, t4⟩ := taskReport_plain s.mgr g tid r v hint _ eps o hinv.pr hinv.runok htr
         have hnotin : tid ∉ unpromotedSys s.mgr.systems := by
           intro hm
           obtain ⟨rec2, hr2, hd2⟩ := hinv.paused tid hm
@@ -167,7 +169,7 @@ theorem onResult_KInv (s s' : Sched) (tid r : Nat) (v : Rat) (hint : Bool) (cost
               rcases t4 with h4 | ⟨_, c2, _⟩
               · exact h4
               · rw [hig] at c2; cases c2
-            exact ⟨by simp only [t1]; exact hinv.plain,
+            exact ⟨by simp only [t1]; exact hinv.pr,
               by intro t ht; simp only [hsame] at ht; exact hinv.paused t ht,
               by simp only [hsame]; exact hinv.nodup, t3⟩
           · simp only [hig, Bool.false_eq_true, if_false] at h
@@ -186,7 +188,7 @@ theorem onResult_KInv (s s' : Sched) (tid r : Nat) (v : Rat) (hint : Bool) (cost
                   rcases t4 with h4 | ⟨c1, _, _⟩
                   · exact h4
                   · rw [hc] at c1; cases c1
-                refine ⟨by simp only [t1]; exact hinv.plain, ?_, by simp only [hsame]; exact hinv.nodup, t3⟩
+                refine ⟨by simp only [t1]; exact hinv.pr, ?_, by simp only [hsame]; exact hinv.nodup, t3⟩
                 intro t ht
                 simp only [hsame] at ht
                 obtain ⟨rec2, hr2, hd2⟩ := hinv.paused t ht
@@ -202,7 +204,7 @@ theorem onResult_KInv (s s' : Sched) (tid r : Nat) (v : Rat) (hint : Bool) (cost
                 obtain ⟨f1, f2, f3, f4⟩ := taskRemove_fields g tid
                 unfold Sched.cleanup
                 simp only
-                refine ⟨by simp only [f1, t1]; exact hinv.plain, ?_, ?_, f4 t3⟩
+                refine ⟨by simp only [f1, t1]; exact hinv.pr, ?_, ?_, f4 t3⟩
                 · intro t ht
                   simp only [f3] at ht
                   by_cases he : t = tid
